@@ -55,11 +55,29 @@ def first(ctx, prog, ver):
                 tgt = variant_target(s, "PubAck")
                 if tgt is not None:
                     vals = set()
-                    for b in reachable(cb, (tgt,)):
+                    # value returned on the PubAck edge: a constant stored into the return place directly, or into a
+                    # temporary inside the arm and copied / negated afterwards (`!matches!(request, Request::PubAck(_))`)
+                    others = [t_ for t_ in live_succ(cb, s[0]) if t_ != tgt] if isinstance(s[0], int) else []
+                    shared = reachable(cb, tuple(others)) if others else set()
+                    arm = reachable(cb, (tgt,))
+                    consts = {}
+                    for b in arm - shared:
                         for stt in cb.blocks[b]["s"]:
-                            if "lhs" in stt and stt["lhs"]["l"] == 0 and stt["rv"]["k"] == "use":
-                                k = op_const(stt["rv"]["a"])
-                                vals.add(k.get("v") if k else None)
+                            if "lhs" in stt and not stt["lhs"].get("p") and stt["rv"]["k"] == "use" and op_const(stt["rv"]["a"]) is not None:
+                                consts[stt["lhs"]["l"]] = op_const(stt["rv"]["a"]).get("v")
+                    for b in arm:
+                        for stt in cb.blocks[b]["s"]:
+                            if "lhs" in stt and stt["lhs"]["l"] == 0 and not stt["lhs"].get("p"):
+                                rv = stt["rv"]
+                                if rv["k"] == "use":
+                                    k = op_const(rv["a"])
+                                    l_ = op_local(rv["a"])
+                                    vals.add(k.get("v") if k else consts.get(l_))
+                                elif rv["k"] == "un" and rv.get("op") == "Not":
+                                    v_ = consts.get(op_local(rv["a"]))
+                                    vals.add(None if v_ is None else (0 if v_ else 1))
+                                else:
+                                    vals.add(None)
                     if vals == {0}:
                         filt = True
     if filt and any(callee_path(t).endswith("Vec::<T, A>::retain") for _, t in c.calls()):
